@@ -148,7 +148,7 @@ func TestGvcReplay(t *testing.T) {
 }
 
 func init() {
-	boundedChecks = append(boundedChecks, boundedCheck{prop: "C06", props: []string{"C01"}, name: "bounded:hash.Hash/fields", fn: "github.com/go-task/task/v3/internal/hash.Hash",
+	boundedChecks = append(boundedChecks, boundedCheck{prop: "C06", props: []string{"C01", "C11"}, name: "bounded:hash.Hash/fields", fn: "github.com/go-task/task/v3/internal/hash.Hash",
 		why:    "the when_changed key is computed by hashstructure through reflection; which fields (and which parts of the ordered variable maps) reach the hash cannot be stated as an obligation over go/ssa",
 		bound:  "one pair of compiled tasks per exported field of ast.Task (enumerated by reflection, so new fields are covered), differing in that field only - for *Vars fields in the VALUE of one variable, for nested structs in every settable field down to depth 3; the two keys must differ",
 		pkgRel: "internal/hash",
